@@ -900,7 +900,9 @@ FAULT_OBJS = {"o1": {"attrs": {"a": J.vint(1), "ra": {"t": "raiser", "exc": "Att
                      "items": {"a": J.vint(2), "ra": J.vint(7), "rk": {"t": "raiser", "exc": "KeyError", "id": "rk"},
                                "ri": {"t": "raiser", "exc": "Private", "id": "ri"}},
                      "str": J.vstr("O<1>")},
-              "o2": {"attrs": {}, "items": {}, "str": {"t": "raiser", "exc": "Private", "id": "strfault"}}}
+              "o2": {"attrs": {}, "items": {}, "str": {"t": "raiser", "exc": "Private", "id": "strfault"}},
+              # an object that defines its own truth value (falsy)
+              "o3": {"attrs": {"a": J.vint(3)}, "items": {}, "str": J.vstr("O3"), "bool": J.vbool(False)}}
 
 
 def fault_base_case(rnd, cid):
@@ -916,7 +918,13 @@ def fault_base_case(rnd, cid):
         if r < 0.4: return [J.For(J.TName("x"), rnd.choice([call("f3"), N("it"), N("l1")]), [J.Out(N("x")), J.Out(call("f1", N("x"))), J.Text(",")])]
         if r < 0.55: return [J.Out(rnd.choice([J.Getattr(N("o1"), "a"), J.Getitem(N("o1"), C("a")), J.Getattr(N("o1"), "ra"),
                                                 J.Getitem(N("o1"), C("rk")), J.Getattr(N("o1"), "zz"), N("o1")]))]
-        if r < 0.65: return [J.If([call("f2")], [[J.Text("T"), J.Out(call())]], [J.Text("F")])]
+        if r < 0.6: return [J.If([call("f2")], [[J.Text("T"), J.Out(call())]], [J.Text("F")])]
+        if r < 0.65:
+            # the truth value of a data object (its __bool__) in every place that asks for it
+            o = N(rnd.choice(["o1", "o3", "o3"]))
+            return [rnd.choice([J.If([o], [[J.Text("T")]], [J.Text("F")]), J.Out(J.Or(o, C("or"))), J.Out(J.And(o, C("and"))), J.Out(J.Not(o)),
+                                J.Out(J.Cond(o, C("y"), C("n"))), J.Out(J.Filter(o, "default", [C("d"), C(True)])),
+                                J.For(J.TName("x"), N("l1"), [J.Out(N("x"))], None, o)])]
         if r < 0.75: return [J.Set("v", call()), J.Out(N("v"))]
         if r < 0.85: return [J.Out(J.Filter(call("f4"), "default", [C("dflt")]))]
         return [J.Out(J.Test(call("f4"), "defined")), J.Out(J.Filter(J.List([call("f1", C(2)), call("f2")]), "join", [C("+")]))]
@@ -967,7 +975,7 @@ def fault_base_case(rnd, cid):
     tpls["main"] = J.template(body, auto)
     data = {"f1": J.vfn("f1", "arg0", J.vint(0)), "f2": J.vfn("f2", "const", J.vint(5)),
             "f3": J.vfn("f3", "const", J.vlist([J.vint(1), J.vint(2)])), "f4": J.vfn("f4", "stopiter"),
-            "it": J.vlist([J.vint(4), J.vint(5), J.vint(6)]), "l1": J.vlist([J.vint(7)]), "o1": J.vobj("o1")}
+            "it": J.vlist([J.vint(4), J.vint(5), J.vint(6)]), "l1": J.vlist([J.vint(7)]), "o1": J.vobj("o1"), "o3": J.vobj("o3")}
     return J.make_case(cid, tpls, "main", [data], objs=FAULT_OBJS)
 
 
@@ -1016,6 +1024,12 @@ def fault_variants(base, obs, start_id):
         o["o1"]["attrs"]["zz"] = {"t": "raiser", "exc": "AttributeError", "id": "zz"}
         o["o1"]["items"]["zz"] = {"t": "raiser", "exc": "KeyError", "id": "zzk"}
         variant(d0, objs=o)
+    for oid in ("o1", "o3"):
+        if f'"{oid}"' in src:
+            # the object's __bool__ raises: wherever its truth is asked for, the render ends with that exception
+            o = copy.deepcopy(FAULT_OBJS)
+            o[oid]["bool"] = {"t": "raiser", "exc": "Private", "id": "bool_" + oid}
+            variant(d0, objs=o)
     return out
 
 
